@@ -18,6 +18,10 @@ ASSUMPTIONS = ["ref/xml_tokenizer.json reviewed (snapshot of the code after the 
 
 
 def run(ctx):
+    ctx.rule("R15.7", "the tokenizer takes attribute value characters verbatim (no folding of line breaks or other characters inside a value)")
+    from . import tokrules as _trv
+    for _w in ('xml',):
+        ctx.guard("R15.7", "attr-verbatim/" + _w, lambda _w=_w: _trv.attr_values_kept_verbatim(ctx, "R15.7", _w))
     ctx.rule("R15.1", "every pop_except_from set contains what get_preprocessed_char rewrites (CR, NUL) and what the arm treats specially: fast path == slow path")
     ctx.rule("R15.2", "feed() clears discard_bom after the first character; no other reader")
     ctx.rule("R15.3", "text pushed back by the char-ref code was read raw (peek), never through get_char")
